@@ -4,6 +4,7 @@ import FormulaeModel.Model.Parser
 import FormulaeModel.Model.Matrices
 import FormulaeModel.Generated.Tables
 import FormulaeModel.Spec.C04
+import FormulaeModel.Model.Pipeline
 /-
 Driver op "design": the evaluation model (Model/Design.lean, Model/Matrices.lean) on a formula,
 a frame, the coding decisions observed from the implementation, and new frames.
@@ -78,17 +79,7 @@ def termSpecOfJson (j : Json) : TermSpec :=
       | .arr #[.str n, .bool b] => some (n, b)
       | _ => none) }
 
-mutual
-/-- every atom at a term position of the formula, keyed by its component name -/
-def atomTable : Expr → List (String × Expr)
-  | .grouping _ e _ => atomTable e
-  | .binary l _ r => atomTable l ++ atomTable r
-  | .unary _ r => atomTable r
-  | e =>
-    match Resolver.noKw (Resolver.lazyArg e) with
-    | .ok (nm, _) => [(nm, e)]
-    | .error _ => []
-end
+def atomTable : Expr → List (String × Expr) := Pipeline.atomTable
 
 def errTag : Err → Json
   | .keyError n => Json.mkObj [("err", "KeyError"), ("what", n)]
@@ -227,8 +218,31 @@ def specC04 (j : Json) : Json :=
         | .error er => errTag er)
       Json.mkObj [("parts", Json.arr parts.toArray)]
 
+def pErrJson : Pipeline.PErr → Json
+  | .scan => errJ "scan" | .parse => errJ "parse"
+  | .resolve _ => errJ "resolve" | .na => errJ "ValueError"
+  | .encoding e => Json.mkObj [("err", "encoding"), ("what", e.tag)]
+  | .eval e => errTag e
+  | .shape w => Json.mkObj [("err", "unmodelled"), ("what", w)]
+
+/-- the whole pipeline in Lean: nothing but formula, data, names and the NA policy enters -/
+def pipelineOp (j : Json) : Json :=
+  let frame := frameOfJson ((j.getObjVal? "frame").toOption.getD Json.null)
+  let names := namesOfJson ((j.getObjVal? "names").toOption.getD Json.null)
+  let env : Env := { frame, names }
+  let action := if getStr j "na_action" == "" then "drop" else getStr j "na_action"
+  match Pipeline.designMatrices Generated.parserTable Generated.resolverOps Generated.naActions
+      (getStr j "formula") env action with
+  | .error e => pErrJson e
+  | .ok b =>
+    let t : Trained := ⟨b.response, b.common, b.group⟩
+    let news := (getArr j "new").map (fun nj => newJson t nj names)
+    Json.mkObj [("train", trainedJson b.frame.nrows t), ("new", Json.arr news.toArray),
+                ("terms", jStrs (b.common.map (·.1)))]
+
 def handle (op : String) (j : Json) : Option Json :=
   match op with
+  | "pipeline" => some (pipelineOp j)
   | "c04_spec" => some (specC04 j)
   | "design" =>
     let s := getStr j "formula"
